@@ -330,9 +330,52 @@ fn xguidance() -> BoxedStrategy<Option<Value>> {
     .boxed()
 }
 
+/// A `$ref` reachable from a definition's root through anyOf/oneOf/allOf only would make the
+/// definition refer to itself without consuming input (`d0 = anyOf[x, $ref d0]`): legal but
+/// useless, and the jsonschema crate used as second opinion does not terminate on it.  Such
+/// references are wrapped into an array by construction.
+fn guard_refs(v: &mut Value, guarded: bool) {
+    if let Value::Object(m) = v {
+        if m.contains_key("$ref") && !guarded {
+            let r = m.get("$ref").cloned().unwrap();
+            *v = json!({"type":"array","items":{"$ref": r},"maxItems":2});
+            return;
+        }
+        for (k, x) in m.iter_mut() {
+            match k.as_str() {
+                "anyOf" | "oneOf" | "allOf" => {
+                    if let Value::Array(a) = x {
+                        for y in a.iter_mut() {
+                            guard_refs(y, guarded);
+                        }
+                    }
+                }
+                "properties" | "patternProperties" => {
+                    if let Value::Object(pm) = x {
+                        for (_, y) in pm.iter_mut() {
+                            guard_refs(y, true);
+                        }
+                    }
+                }
+                "items" | "additionalProperties" => guard_refs(x, true),
+                "prefixItems" => {
+                    if let Value::Array(a) = x {
+                        for y in a.iter_mut() {
+                            guard_refs(y, true);
+                        }
+                    }
+                }
+                _ => {}
+            }
+        }
+    }
+}
+
 pub fn schema_strategy(p: Profile) -> BoxedStrategy<Value> {
     (tree(p, true), def_body(p), def_body(p), xguidance())
-        .prop_map(|(body, d0, d1, xg)| {
+        .prop_map(|(body, mut d0, mut d1, xg)| {
+            guard_refs(&mut d0, false);
+            guard_refs(&mut d1, false);
             let mut m = match body {
                 Value::Object(m) => m,
                 Value::Bool(true) => Map::new(),
@@ -370,11 +413,13 @@ pub fn schema_grammar(p: Profile) -> BoxedStrategy<GrammarSpec> {
 pub struct Tape<'a> {
     t: &'a [u16],
     i: usize,
+    /// nodes generated so far (instance generation switches to minimal choices beyond a budget)
+    pub nodes: usize,
 }
 
 impl<'a> Tape<'a> {
     pub fn new(t: &'a [u16]) -> Self {
-        Tape { t, i: 0 }
+        Tape { t, i: 0, nodes: 0 }
     }
     pub fn next(&mut self, n: usize) -> usize {
         if n == 0 {
@@ -523,6 +568,12 @@ pub fn gen_instance(root: &Value, s: &Value, tape: &mut Tape, depth: usize) -> O
     if depth > 12 {
         return None;
     }
+    tape.nodes += 1;
+    if tape.nodes > 2000 {
+        return None;
+    }
+    // once the instance is big, behave as if deep in a recursion (minimal choices)
+    let depth = if tape.nodes > 60 { depth.max(7) } else { depth };
     let o = match s {
         Value::Bool(true) => return Some(gen_any(tape, depth)),
         Value::Bool(false) => return None,
